@@ -144,8 +144,7 @@ type wspSess struct {
 	bySeq   map[string]string // WSP seq -> CSeq of the wrapped request ("" for non-WRAP)
 	ctlRead int               // control messages already indexed
 	seenSeq map[string]int
-	dataPos int
-	sentOK  bool
+	dsc     *scanner // message-level grammar over the data channel (after the JOIN response)
 }
 
 func (x *wspSess) wrap(method string) (seq string, err error) {
@@ -199,29 +198,20 @@ func (x *wspSess) answered(id string) bool {
 }
 
 func (x *wspSess) broken() bool {
-	_, e1 := x.ctl.snapshot()
-	_, e2 := x.data.snapshot()
-	return e1 != nil || e2 != nil
+	if _, e := x.ctl.snapshot(); e != nil {
+		return true
+	}
+	x.dsc.scan()
+	x.dsc.mu.Lock()
+	defer x.dsc.mu.Unlock()
+	return x.dsc.obs.Err != nil
 }
 
 func (x *wspSess) sentinelSeen() bool {
-	s := x.sentinel()
-	if s == nil {
-		return false
-	}
-	x.data.mu.Lock()
-	defer x.data.mu.Unlock()
-	if x.sentOK {
-		return true
-	}
-	for ; x.dataPos < len(x.data.msgs); x.dataPos++ {
-		d := x.data.msgs[x.dataPos].data
-		if len(d) == 4+len(s) && bytes.Equal(d[4:], s) {
-			x.sentOK = true
-			return true
-		}
-	}
-	return false
+	x.dsc.scan()
+	x.dsc.mu.Lock()
+	defer x.dsc.mu.Unlock()
+	return x.dsc.sentSeen
 }
 
 func (x *wspSess) allAnswered() bool {
@@ -269,19 +259,31 @@ func openWSP(t evid.TB, s *srv.Server, pl *plan, path string, exp *expectation) 
 	if err != nil || r.Status != 200 || r.Header["channel"] == "" {
 		fail(x, "INIT response: %v %+v", err, r)
 	}
-	if x.data, err = dialWS(s.WS(path), "data"); err != nil {
-		fail(x, "data dial: %v", err)
-	}
+	// ipchub writes the INIT response before it registers the session (service/wsp/wsp.go
+	// handshakeControlChannel), so a JOIN sent at once can be answered 404 and closed:
+	// not this property's business - join again on a fresh data connection
 	x.seq = 2
-	if err := x.data.sendText("WSP/1.1 JOIN\r\nchannel: " + r.Header["channel"] + "\r\nseq: 2\r\n\r\n"); err != nil {
-		fail(x, "JOIN: %v", err)
-	}
-	m, err = waitMsg(x.data, 1)
-	if err != nil {
-		fail(x, "JOIN response: %v", err)
-	}
-	if jr, err := parseWSP(m.data); err != nil || jr.Status != 200 {
-		fail(x, "JOIN response: %v %+v", err, jr)
+	for try := 0; ; try++ {
+		if x.data, err = dialWS(s.WS(path), "data"); err != nil {
+			fail(x, "data dial: %v", err)
+		}
+		if err := x.data.sendText("WSP/1.1 JOIN\r\nchannel: " + r.Header["channel"] + "\r\nseq: 2\r\n\r\n"); err != nil {
+			fail(x, "JOIN: %v", err)
+		}
+		m, err = waitMsg(x.data, 1)
+		if err != nil {
+			fail(x, "JOIN response: %v", err)
+		}
+		jr, err := parseWSP(m.data)
+		if err == nil && jr.Status == 404 && try < 100 {
+			x.data.ws.Close()
+			time.Sleep(time.Millisecond)
+			continue
+		}
+		if err != nil || jr.Status != 200 {
+			fail(x, "JOIN response: %v %+v", err, jr)
+		}
+		break
 	}
 	do := func(method, url string, hdr string) *rtspc.Response {
 		x.mu.Lock()
@@ -336,25 +338,20 @@ func openWSP(t evid.TB, s *srv.Server, pl *plan, path string, exp *expectation) 
 // frames to the common judge.
 func judgeWSP(x *wspSess, exp *expectation, complete bool) (*observed, *verdict) {
 	obs := &observed{}
-	dmsgs, derr := x.data.snapshot()
 	cmsgs, cerr := x.ctl.snapshot()
-	if derr != nil || cerr != nil {
-		return obs, &verdict{"connection", fmt.Sprintf("a channel ended during the case: control %v, data %v", cerr, derr)}
+	if cerr != nil {
+		return obs, &verdict{"connection", fmt.Sprintf("the control channel ended during the case: %v", cerr)}
 	}
-	for i, m := range dmsgs[1:] { // [0] answered JOIN
-		it, n, err := rtspc.ParseItem(m.data)
-		switch {
-		case err != nil:
-			return obs, &verdict{"grammar", fmt.Sprintf("data message %d (%d bytes, %s): %v", i+1, len(m.data), evid.Hex(m.data), err)}
-		case n == 0:
-			return obs, &verdict{"grammar", fmt.Sprintf("data message %d (%d bytes, %s) ends inside an item", i+1, len(m.data), evid.Hex(m.data))}
-		case n != len(m.data):
-			return obs, &verdict{"grammar", fmt.Sprintf("data message %d (%d bytes) holds more than one item (first %d bytes)", i+1, len(m.data), n)}
-		case it.Frame == nil:
-			return obs, &verdict{"grammar", fmt.Sprintf("data message %d is a response, not a frame: %q", i+1, evid.Hex(m.data))}
+	d := x.dsc.result()
+	obs.Frames, obs.Kinds = d.Frames, d.Kinds
+	if d.Err != nil {
+		if fe, ok := d.Err.(*rtspc.FramingError); ok {
+			return obs, &verdict{"grammar", "data channel: " + fe.What + " (" + evid.Hex(fe.Near) + ")"}
 		}
-		obs.Frames = append(obs.Frames, *it.Frame)
-		obs.Kinds = append(obs.Kinds, 'F')
+		return obs, &verdict{"connection", fmt.Sprintf("the data channel ended during the case: %v", d.Err)}
+	}
+	if len(d.Resps) > 0 {
+		return obs, &verdict{"grammar", fmt.Sprintf("the data channel carried a response: %q", d.Resps[0].Raw)}
 	}
 	// control: one WSP response per message, each answers one request (seq), the
 	// wrapped RTSP response is exactly one item and carries the CSeq sent under that seq
@@ -413,6 +410,7 @@ func runWSP(t evid.TB, pl *plan) *result {
 	defer x.ctl.ws.Close()
 	defer x.data.ws.Close()
 	x.sentinel = e.sentinelBytes
+	x.dsc = newScanner(x.data, 1, e.sentinelBytes) // message 0 answered JOIN
 	e.se = x
 	e.tg = &target{in: sched.New(grace)}
 	addrs := []string{x.ctl.ws.LocalAddr().String(), x.data.ws.LocalAddr().String()}
@@ -433,7 +431,11 @@ func runWSP(t evid.TB, pl *plan) *result {
 		// occurrences of the window directives count from here
 		waitFor(time.Second, func() bool { return atomic.LoadInt64(&e.tg.passed) >= e.pubCount })
 		e.addWindows()
-		res.v = e.runSteps()
+		if len(pl.Requests) > 0 {
+			res.v = e.runStress()
+		} else {
+			res.v = e.runSteps()
+		}
 	}
 	if res.v == nil && !x.broken() {
 		// a PAUSE may be in force, and a window that was not reached yet could still send
@@ -470,8 +472,8 @@ func TestWindowsWSP(t *testing.T) {
 	evid.Rule(ruleText)
 	evid.Assume("WSP: the control and the data channel are different WebSocket connections, so a response can never land inside a frame; what is judged is the message level (one frame per data message, one WSP response wrapping one RTSP response per control message)")
 	label := "wsp windows"
-	checkParallel(t, 40, 500, func(rt *rapid.T) {
-		pl := genPlan(rt, "wsp")
+	checkParallel(t, 150, 1500, func(rt *rapid.T) {
+		pl := genPlan(rt, "wsp", false)
 		evid.Eval(1)
 		res := runWSP(rt, pl)
 		report(rt, pl, res)
@@ -483,6 +485,23 @@ func TestWindowsWSP(t *testing.T) {
 		}
 		for _, r := range res.obs.Resps {
 			evid.Class(fmt.Sprintf("%s: response status %d", label, r.Status))
+		}
+	})
+}
+
+func TestStressWSP(t *testing.T) {
+	t.Parallel()
+	evid.Rule(ruleText)
+	label := "wsp stress"
+	checkParallel(t, 20, 200, func(rt *rapid.T) {
+		pl := genStress(rt, "wsp")
+		evid.Eval(1)
+		res := runWSP(rt, pl)
+		report(rt, pl, res)
+		if len(res.obs.Frames) > 0 && len(res.obs.Resps) > 0 {
+			evid.Nontrivial(evid.FP(label, fmt.Sprint(*pl)))
+			evid.ClassN(label+": data frames", int64(len(res.obs.Frames)))
+			evid.ClassN(label+": control responses", int64(len(res.obs.Resps)))
 		}
 	})
 }
